@@ -772,7 +772,7 @@ pub fn model_probe(entries: &[Entry], q: usize) -> Option<Vec<u8>> {
 /// corner file's tree on the real cursor over the same file (rebuilt now from the real writer).
 /// With `extend`, every operation x probe is additionally tried from the state each history
 /// reaches (on a clone), so every transition of the model is executed on the real code.
-pub fn replay_histories(out: &mut TraceOut, corner: usize, hists: &[Vec<(String, usize, i64)>], extend: bool, name: &str) -> (u64, u64) {
+pub fn replay_histories(out: &mut TraceOut, corner: usize, hists: &[Vec<(String, usize, i64, u64)>], extend: bool, name: &str) -> (u64, u64) {
     let (cfg, entries) = corner_files()[corner].clone();
     let n = entries.len();
     let all_probes: Vec<(usize, Vec<u8>)> = (1..=2 * n + 1).filter_map(|q| model_probe(&entries, q).map(|p| (q, p))).collect();
@@ -800,14 +800,17 @@ pub fn replay_histories(out: &mut TraceOut, corner: usize, hists: &[Vec<(String,
             })
         };
         let mut realizable = true;
-        for (op, q, expect) in h {
+        for (op, q, expect, expect_loads) in h {
             let Some(o) = mk(op, *q) else {
                 realizable = false;
                 break;
             };
-            let res = s.op(c, &o);
+            let (res, loads) = s.exec(c, &o);
+            let qid = o.probe().map(|p| s.dict.as_ref().unwrap().id(p)).unwrap_or(0);
+            s.out.ev(json!({"ev": "Op", "c": c, "op": o.name(), "q": qid, "res": res, "loads": loads}));
             compared += 1;
-            if res != *expect {
+            // Level-B comparison (drift): the model predicts the answer AND the number of block loads
+            if res != *expect || loads != *expect_loads {
                 drift += 1;
             }
         }
